@@ -706,6 +706,9 @@ impl XmlAttribute {
             let attr = XmlAttribute::node(&tree, self.parent_id(), self.context())?;
             // TODO: remove id from id_map.
             let attr = attr.as_attribute().unwrap();
+            for v in self.values.borrow().as_slice() {
+                v.set_parent_id(None);
+            }
             self.values.borrow_mut().clear();
 
             for v in attr.borrow().values.borrow().as_slice() {
